@@ -398,3 +398,48 @@ func c18Filter(c *core.Ctx, in []c18Loop, checkSimple bool) []c18Loop {
 	}
 	return out
 }
+
+// c18BandCatalogue: loops that are larger than a hemisphere although they contain neither pole and
+// do not span all longitudes: the band between two latitudes with a gap of longitudes removed (and
+// the same shape tilted into a generic frame).  Their longitude span lies strictly between 180 and
+// 360 degrees, the regime in which a bounding rectangle says nothing about the loop's size.
+func c18BandCatalogue(big bool) []c18Loop {
+	type frame struct{ x, y, z r3.Vector }
+	frames := []frame{{r3.Vector{X: 1}, r3.Vector{Y: 1}, r3.Vector{Z: 1}}}
+	{
+		p := r3.Vector{X: 0.3, Y: -0.5, Z: 0.81}.Normalize()
+		u, w := c18Frame(s2.Point{Vector: p})
+		frames = append(frames, frame{u, w, p})
+	}
+	gaps := []float64{40, 150}
+	lats := []float64{80, 30}
+	if big {
+		gaps = append(gaps, 10, 90, 170)
+		lats = append(lats, 60, 5)
+	}
+	var out []c18Loop
+	for fi, fr := range frames {
+		for _, lat := range lats {
+			for _, gap := range gaps {
+				for _, gc := range []float64{180, 37} { // where the removed longitudes are centred
+					pt := func(la, lo float64) s2.Point {
+						q := s2.PointFromLatLng(s2.LatLngFromDegrees(la, lo))
+						return s2.Point{Vector: fr.x.Mul(q.X).Add(fr.y.Mul(q.Y)).Add(fr.z.Mul(q.Z)).Normalize()}
+					}
+					lo0, lo1 := gc+gap/2, gc+360-gap/2 // the band runs from lo0 eastwards to lo1
+					steps := 9
+					var v []s2.Point
+					// north side westwards (interior to the left = south), then south side eastwards
+					for i := steps; i >= 0; i-- {
+						v = append(v, pt(lat, lo0+(lo1-lo0)*float64(i)/float64(steps)))
+					}
+					for i := 0; i <= steps; i++ {
+						v = append(v, pt(-lat, lo0+(lo1-lo0)*float64(i)/float64(steps)))
+					}
+					out = append(out, c18Loop{fmt.Sprintf("band frame%d |lat|<%g gap=%g at %g", fi, lat, gap, gc), "band", v})
+				}
+			}
+		}
+	}
+	return out
+}
